@@ -247,6 +247,14 @@ func generatedClasses(r *Rng) map[string][]byte {
 		}
 		b, _ := json.MarshalIndent(obj, "", "  ")
 		out["zz_gen_"+strings.ToLower(nm)+".json"] = b
+		if i == 0 && r.Chance(1, 4) {
+			// an extension file that reopens a shipped class (Object, Integer, String) and makes
+			// it extend the generated class: the generated class is, implicitly, an Object too,
+			// so the parent graph has a cycle whose edges arrive in file order
+			ext := map[string]any{"frame": "Builtin", "class": r.Pick([]string{"", "", "Integer", "String"}), "extends": []string{nm}, "instance_methods": []meth{}, "class_methods": []meth{}}
+			eb, _ := json.MarshalIndent(ext, "", "  ")
+			out[r.Pick([]string{"aa_ext_", "zz_ext_"})+strings.ToLower(nm)+".json"] = eb
+		}
 		if i == 0 && r.Chance(1, 3) {
 			// a class of the same name in a second frame, with methods of its own: which frame a
 			// bare reference to the name means is a property of the declarations, not of the
